@@ -122,6 +122,19 @@ def mutation_alphabet(spec):
     A.append({'op': 'rename_model', 'model': 'Item', 'new': 'Thing', 'db_table': 'vapp_thing'})
     A.append({'op': 'rename_model', 'model': 'Anchor', 'new': 'Base', 'db_table': 'vapp_base'})
     A.append({'op': 'delete_model', 'model': 'Item'})
+    # second generation of entries (appended so that earlier program ids keep their meaning)
+    A.append({'op': 'add', 'model': 'Item', 'name': 'code', 'field': _f('Char', max_length=8, null=True, unique=True)})
+    A.append({'op': 'add', 'model': 'Item', 'name': 'slug', 'field': _f('Char', max_length=8, db_index=True),
+              'initial': 'x'})
+    A.append({'op': 'add', 'model': 'Item', 'name': 'seen', 'field': _f('DateTime', null=True)})
+    A.append({'op': 'add', 'model': 'Item', 'name': 'huge', 'field': _f('BigInteger'), 'initial': 2 ** 40})
+    A.append({'op': 'add', 'model': 'Item', 'name': 'one', 'field': _f('OneToOne', to='Anchor', null=True)})
+    A.append({'op': 'change', 'model': 'Item', 'name': 'amount', 'attrs': {'max_digits': 10}})
+    A.append({'op': 'delete', 'model': 'Item', 'name': 'big'})
+    A.append({'op': 'delete', 'model': 'Item', 'name': 'tags'})
+    A.append({'op': 'rename', 'model': 'Item', 'name': 'tags', 'new': 'labels'})
+    A.append({'op': 'delete', 'model': 'Item', 'name': 'owner'})
+    A.append({'op': 'rename', 'model': 'Anchor', 'name': 'value', 'new': 'val'})
     return A
 
 
